@@ -130,6 +130,24 @@ def sample_names(beh: dict[str, list[str]], seed: int, per_group=2, per_feature=
     for must in ("A4_tlbmatch", "L2_loadrb_pci", "A2_addi", "J2_jump", "S2_storerd_io"):
         if must in beh:
             pick.add(must)
+    # every rare construct: each token (identifier, compound operator) that at most 8 behaviours use is covered by at
+    # least one sampled behaviour (greedy cover, seeded choice among the candidates)
+    toks = {n: set(re.findall(r"[A-Za-z_]\w*|<<=|>>=|[-+*&|^]=|\+\+|--", " ".join(beh[n]))) for n in names}
+    cnt: dict[str, int] = {}
+    for ts in toks.values():
+        for t in ts:
+            cnt[t] = cnt.get(t, 0) + 1
+    left = {t for t, k in cnt.items() if k <= 8}
+    for n in pick:
+        left -= toks[n]
+    order = list(names)
+    rng.shuffle(order)
+    while left:
+        best = max(order, key=lambda n: len(toks[n] & left))
+        if not toks[best] & left:
+            break
+        pick.add(best)
+        left -= toks[best]
     v6 = sorted(n for n in beh if n.startswith("V6_"))
     pick.update(rng.sample(v6, min(3, len(v6))))
     return sorted(pick)
